@@ -46,3 +46,30 @@ PROPS["C04"] = {
                     "ET after a TOF delay / TP pulse has expired may be anything in [0,PT] (IEC holds PT, docs/specs/08 diagrams drop to 0)"],
     "design_ref": "DESIGN.md section 3, C04",
 }
+
+PROPS["C10"] = {
+    "engine": "c10",
+    "level": "fault_enumeration",
+    "technique": "LD_PRELOAD crash-point injection at every system call of the real save (before/after/partial write) + bit-exact codec round trip + hostile-file decoding under a counting allocator on a 2 MiB stack",
+    "builds": ["shim"],
+    "quick": {"shards": 4, "budget_s": 25, "max_restarts": 40},
+    "thorough": {"shards": 16, "budget_s": 240, "max_restarts": 60},
+    "floor": {"quick": 500, "thorough": 20000},
+    "require_counters": {"quick": {"B_crash_points_injected": 20, "A_roundtrips_equal": 100, "C_inputs_decoded": 1000},
+                         "thorough": {"B_crash_points_injected": 500, "A_roundtrips_equal": 5000}},
+    "rule": "A: random snapshots over all retainable value shapes (NaN payloads, -0.0, extremes, unicode, nested arrays/structs, 0..10^4 entries), "
+            "store->load compared bit-exactly; non-trivial = contains a compound value. B: (s_old,s_new) pairs incl. no previous file, smaller/larger, "
+            "multi-write sizes; a dry run under the shim records the save's system-call sequence, then EVERY call n x {die before, die after, "
+            "partial write of 1, len/2, len-1 bytes} is injected in a child process; non-trivial = the child really died at the injected point "
+            "(exit 137). C: every prefix, every-offset u32/byte patches of a valid file, giant counts, nesting depth up to 10^5, random mutants; "
+            "non-trivial = distinct byte string that went through load() under the allocator monitor",
+    "level_text": "Crash atomicity is decided by enumerating every system call the real FileRetainStore::store makes (learned at run time from "
+                  "the tree under test) and killing the process before/after/inside each one, then calling the real load(): it must return "
+                  "s_old or s_new in full. The codec is checked by bit-exact round trips and the decoder by hostile inputs under an allocation "
+                  "budget (peak <= 128*|file| + 1 MiB, single request <= 1 GiB) on a 2 MiB stack.",
+    "level_note": "Crash model = process death (completed system calls are durable); power-loss reordering of un-fsynced data is outside the property text and "
+                  "outside this technique. Exhaustive over the observed call sequence of each sampled save, not over all snapshots.",
+    "assumptions": ["std::fs reaches the kernel through libc symbols the shim interposes (verified per run: a dry run with < 2 intercepted calls is inconclusive)",
+                    "memory budget for decoding: 128 bytes per input byte + 1 MiB"],
+    "design_ref": "DESIGN.md section 3, C10",
+}
